@@ -13,6 +13,7 @@ import (
 	"strconv"
 	"testing"
 	"time"
+	_ "time/tzdata" // zone rules embedded: the driver must not depend on the machine's zoneinfo
 
 	"cosmossdk.io/math"
 	sdk "github.com/cosmos/cosmos-sdk/types"
@@ -35,7 +36,18 @@ type drec struct {
 	CT int64 `json:"CT"`
 }
 
+// env places one behaviour: the process-local time zone (time.Local) while it runs, and where on the calendar it
+// starts: `lead` days before the next DST transition of that zone of the given kind ("spring" = clocks go
+// forward, "fall" = back), so that evaluation times fall into the 30 days after a transition.
+type env struct {
+	TZ   string `json:"tz"`
+	Lead int64  `json:"lead"`
+	Kind string `json:"kind"`
+}
+
 type line struct {
+	TZ    string `json:"tz,omitempty"`
+	Start string `json:"start,omitempty"`
 	Ev    string `json:"ev"`
 	Beh   int    `json:"beh"`
 	Gap   int64  `json:"gap"`
@@ -103,6 +115,28 @@ func (w *world) read(delegator string, base int64) (drec, int64) {
 	return r, m
 }
 
+// untilTransition returns how long to wait from `from` to be `lead` days before the next DST transition of loc of
+// the wanted kind (0 if the zone has none within two years).
+func untilTransition(from time.Time, loc *time.Location, kind string, lead int64) time.Duration {
+	_, prev := from.In(loc).Zone()
+	for h := int64(1); h < 2*366*24; h++ {
+		tt := from.Add(time.Duration(h) * time.Hour)
+		_, off := tt.In(loc).Zone()
+		if off != prev {
+			spring := off > prev
+			prev = off
+			if (kind == "spring") == spring {
+				target := tt.Add(-time.Duration(lead) * 24 * time.Hour)
+				if target.After(from) {
+					return target.Sub(from)
+				}
+				// too close: take the next one of that kind
+			}
+		}
+	}
+	return 0
+}
+
 func TestDrive(t *testing.T) {
 	in, out := os.Getenv("VERIF_IN"), os.Getenv("VERIF_OUT")
 	if in == "" || out == "" {
@@ -116,10 +150,19 @@ func TestDrive(t *testing.T) {
 	if err != nil {
 		t.Fatal(err)
 	}
+	// input: {"behs": [[step...]...], "env": [env per behaviour]} (or a bare list of behaviours: UTC, no placement)
 	var behs [][]step
-	if err := json.Unmarshal(raw, &behs); err != nil {
+	var envs []env
+	var obj struct {
+		Behs [][]step `json:"behs"`
+		Env  []env    `json:"env"`
+	}
+	if err := json.Unmarshal(raw, &obj); err == nil && obj.Behs != nil {
+		behs, envs = obj.Behs, obj.Env
+	} else if err := json.Unmarshal(raw, &behs); err != nil {
 		t.Fatal(err)
 	}
+	defer func() { time.Local = time.UTC }()
 	f, err := os.Create(out)
 	if err != nil {
 		t.Fatal(err)
@@ -134,13 +177,29 @@ func TestDrive(t *testing.T) {
 		if w == nil || w.nDel >= behPerChain {
 			w = newWorld(t, seed+int64(bi))
 		}
+		ev := env{TZ: "UTC"}
+		if bi < len(envs) {
+			ev = envs[bi]
+		}
+		loc, lerr := time.LoadLocation(ev.TZ)
+		if lerr != nil {
+			t.Fatalf("time zone %q: %v", ev.TZ, lerr)
+		}
+		time.Local = loc // what a node started with TZ=<zone> has
+		if ev.Kind != "" {
+			if dt := untilTransition(w.c.TS.BlockTime(), loc, ev.Kind, ev.Lead); dt > 0 {
+				if p, msg := w.c.NextBlock(dt); p {
+					t.Fatalf("placing behaviour %d: %s", bi, msg)
+				}
+			}
+		}
 		ts := w.c.TS
 		w.nDel++
 		_, delegator := w.c.AddAccount(common.CONSUMER, w.nDel, balance)
 		// relative clock of this behaviour: the spec starts at now = 1
 		base := ts.BlockTime().UTC().Unix() - 1
 		d0, mc0 := w.read(delegator, base)
-		_ = enc.Encode(line{Ev: "reset", Beh: bi, OK: true, Now: ts.BlockTime().UTC().Unix() - base, D: d0, MC: mc0})
+		_ = enc.Encode(line{TZ: ev.TZ, Start: ts.BlockTime().UTC().Format(time.RFC3339), Ev: "reset", Beh: bi, OK: true, Now: ts.BlockTime().UTC().Unix() - base, D: d0, MC: mc0})
 		for _, s := range beh {
 			ln := line{Ev: s.Op, Beh: bi, Gap: s.Gap, Arg: s.Arg}
 			if s.Gap > 0 {
